@@ -4,8 +4,8 @@ import json, sys
 import glob, os
 pid = sys.argv[1]
 rnd = int(sys.argv[2]) if len(sys.argv) > 2 else 1          # round 1: A/B, round 2: C/D, round 3: E/F
-L1, L2 = "ACE"[rnd - 1], "BDF"[rnd - 1]
-wt = ("/tmp/seed_%s" if rnd == 1 else "/tmp/seed%d_%%s" % rnd) % pid
+L1, L2 = "ACEGI"[rnd - 1], "BDFHJ"[rnd - 1]
+wt = ("/tmp/seed_%s" if rnd == 1 else ("/tmp/seed%d_%%s" if rnd < 4 else "/root/scratch/seed%d_%%s") % rnd) % pid
 used = ""
 if rnd > 1:
     # the earlier rounds' changes are named (their summaries only) so that the new ones differ from them
@@ -14,7 +14,9 @@ if rnd > 1:
         items.append("  - " + " ".join(json.load(open(m))["summary"].split())[:330])
     used = ("\nALREADY USED IN EARLIER ROUNDS (do NOT repeat these mechanisms or close variants; pick different places in the code and "
             "different kinds of mistake — e.g. other functions that take part in the property, glue/entry points, caching, ordering, "
-            "error paths, default arguments, type checks, state shared between calls):\n" + "\n".join(items) + "\n")
+            "error paths, default arguments, type checks, state shared between calls, helper functions the anchored code relies on, only ONE of several "
+            "entry points / component types / code paths affected, sizes around internal limits, Python traps such as a mutable default, an exhausted "
+            "generator, `is` vs `==`, truthiness of 0/''/[]/None, dict/set ordering, str/int coercion, late-binding closures):\n" + "\n".join(items) + "\n")
 for l in open('/verif/properties.jsonl'):
     p = json.loads(l)
     if p['id'] == pid:
@@ -51,7 +53,9 @@ HOW TO RUN THINGS (offline sandbox, no network):
     failures before/after, the change must not add any):
        cd {wt} && PYTHONPATH={wt} /venv/bin/python -m pytest -q -p no:cacheprovider --timeout=900 --continue-on-collection-errors -x -q 2>&1 | tail -5
     (other people run the same suite at the same time and insights/tests/specs uses fixed /tmp paths, so a few of its tests
-    flake under concurrency: re-run any NEW failure alone before blaming your change)
+    flake under concurrency. Run the suite with a PRIVATE /tmp to avoid that:
+       unshare -m sh -c 'mount -t tmpfs tmpfs /tmp && cd {wt} && PYTHONPATH={wt} /venv/bin/python -m pytest -q -p no:cacheprovider --timeout=900 --continue-on-collection-errors -q 2>&1 | grep -E "^(FAILED|ERROR)" | sort' > {wt}/seed_out/fails_X.txt
+    and still re-run any NEW failure alone before blaming your change)
     (drop -x to get the full failure list; `... | grep -E "^(FAILED|ERROR)" | sort > /tmp/fails_{pid}_X.txt` and diff against the unchanged run).
   - work on ONE change at a time: make change {L1}, verify (suite + demo), save patch {L1} with git diff, then `git -C {wt} checkout -- insights`
     and verify the demo passes on the unchanged code; then do the same for {L2}. Leave the worktree with NO source changes at the end
